@@ -38,6 +38,9 @@ func C06(c *Ctx) {
 		o.Name = fmt.Sprintf("memo=%t,debug=%t,stats=%t", o.Memo, o.Debug, o.Stats)
 		os = append(os, o)
 	}
+	// the other options must not switch the cache off: Memoize together with InitState (the store is
+	// not empty although the grammar has no state blocks), with AllowInvalidUTF8, through ParseReader
+	os = append(os, OptSet{Name: "memo=true,initstate", Memo: true, Init: 4}, OptSet{Name: "memo=true,allowinvalid", Memo: true, AllowInvalid: true}, OptSet{Name: "memo=true,reader", Memo: true, Reader: true})
 	cfg := &MCConfig{
 		Profile: pureProfile(), Grammars: c06Strata(), NGrammars: c.N(90, 1500),
 		FlagSets:  [][]string{{}},
@@ -462,7 +465,7 @@ func (c *Ctx) c16BRun(gs []*gast.Grammar, flagSets [][]string, isLR bool, rng *r
 			// "under every combination of the other runtime options": two more of the 32 subsets of
 			// {Memoize, Debug, Statistics, AllowInvalidUTF8, Recover(false)} per input, rotating so
 			// that every subset occurs many times per run
-			for x := 0; x < 2; x++ {
+			for x := 0; x < c.N(1, 2); x++ {
 				j := (len(keys)*7 + 3 + 13*x) % 32
 				combos = append(combos, [5]bool{j&1 != 0, j&2 != 0, j&4 != 0, j&8 != 0, j&16 != 0})
 			}
